@@ -4,7 +4,7 @@
    One step is mathematics outside this development: the long-run mass share of component i under
    independent picks with law p and mean masses m is p_i m_i / sum_j p_j m_j (renewal-reward). *)
 From Coq Require Import List ZArith QArith Bool String.
-From GBS Require Import Model.PyStr Model.Num Model.Bond Model.Select Model.Sys Model.SysGen Proofs.SysGenP.
+From GBS Require Import Model.PyStr Model.Num Model.Bond Model.Select Model.Sys Model.SysGen Proofs.SysGenP Src.SrcSysGen Proofs.SysGenSrcP.
 Import ListNotations.
 Open Scope Q_scope.
 
@@ -31,6 +31,13 @@ Theorem C14_correct_law : forall f1 f2 m1 m2, 0 < f1 -> 0 < f2 -> 0 < m1 -> 0 < 
   (f1 / m1) * m1 / ((f1 / m1) * m1 + ((f2 / m2) * m2 + 0)) == f1 / (f1 + f2).
 Proof. exact share_two_correct. Qed.
 Print Assumptions C14_correct_law.
+
+(* tie T: the component is picked inside the generator whose statement skeleton -- rng.choice(range(len(relative_fractions)),
+   p=relative_fractions / np.sum(relative_fractions)) on the list of the components' relative masses, once per yielded molecule -- is
+   checked against the source on every run (Src/SrcSysGen.v is regenerated only if it matches); the loop around the pick is the model's *)
+Theorem C14_pick_loop_is_source : forall stream S acc, sys_loop_src S acc stream = sys_loop S acc stream.
+Proof. exact sys_loop_is_source. Qed.
+Print Assumptions C14_pick_loop_is_source.
 
 Theorem C14_refuted :
   exists f m v, nth_error (share (comp_law f) m) 0 = Some v /\ nth_error f 0 = Some 90 /\ total f == 100 /\ v < 10 # 100.
